@@ -11,7 +11,7 @@ C13_m1:C13 C13_m2:C13 C13_m4:C13 C13_m5:C13
 C14_m1:C14 C14_m2:C14 C14_m4:C14 C14_m5:C14 C14_m6:C14
 C15_m1:C15 C15_m2:C15 C15_m3:C15 C15_m4:C15 C15_m5:C15
 C16_m1:C16 C16_m2:C16 C16_m3:C16 C16_m4:C16 C16_m5:C16
-C17_m1:C17 C17_m3:C17 C17_m4:C17 C17_m5:C17
+C17_m1:C17 C17_m2:C17 C17_m3:C17 C17_m4:C17 C17_m5:C17
 C18_m1:C18 C18_m2:C18 C18_m3:C18 C18_m4:C18 C18_m5:C18
 C19_m1:C19 C19_m2:C19 C19_m3:C19 C19_m4:C19 C19_m5:C19 C19_m6:C19 C19_m7:C19
 "
